@@ -65,6 +65,28 @@ func (r *REPL) SetUI(term UI) {
 	r.term.SetPrompt(NormalPrompt)
 }
 
+// needsMoreInput reports whether a compile error says that the input
+// ended before the statement did.
+//
+// The test is made on the message of the SyntaxError itself, not on
+// err.Error(), because the formatted error also embeds the offending
+// source line (which may contain any text).
+func needsMoreInput(err error) bool {
+	exc, ok := err.(*py.Exception)
+	if !ok || !py.IsException(py.SyntaxError, exc) {
+		return false
+	}
+	args, ok := exc.Args.(py.Tuple)
+	if !ok || len(args) == 0 {
+		return false
+	}
+	msg, ok := args[0].(py.String)
+	if !ok {
+		return false
+	}
+	return msg == "unexpected EOF while parsing" || msg == "EOF while scanning triple-quoted string literal"
+}
+
 // Run runs a single line of the REPL
 func (r *REPL) Run(line string) error {
 	// Override the PrintExpr output temporarily
@@ -87,9 +109,7 @@ func (r *REPL) Run(line string) error {
 	code, err := py.Compile(toCompile+"\n", r.prog, py.SingleMode, 0, true)
 	if err != nil {
 		// Detect that we should start a continuation line
-		// FIXME detect EOF properly!
-		errText := err.Error()
-		if strings.Contains(errText, "unexpected EOF while parsing") || strings.Contains(errText, "EOF while scanning triple-quoted string literal") {
+		if needsMoreInput(err) {
 			stripped := strings.TrimSpace(toCompile)
 			isComment := len(stripped) > 0 && stripped[0] == '#'
 			if !isComment {
